@@ -32,6 +32,10 @@ def routing(ctx, case, cfg, family, seed, name):
     R.TAU_LOAD = 1e-5
     env, O = envzoo.make(cfg)
     td_two = envzoo.instances(env, cfg, family, 2, seed)
+    if case.get("env_n"):
+        # the env that is explored was constructed for ANOTHER size than the instances have (size-agnostic envs)
+        env, O = envzoo.make(dict(cfg, n=case["env_n"]))
+        ctx.count("c05_other_size_envs")
     td_in = td_two[:1].clone()
     td0 = env.reset(td_in.clone())
     inst = O.extract(td_in, td0, 0, env)
@@ -62,6 +66,26 @@ def routing(ctx, case, cfg, family, seed, name):
     if family == "boundary":
         ctx.count("c05_boundary_instances")
     ctx.nontrivial_case(dict(i=inst, c=cfg))
+    if name == "sdvrp" and family in ("boundary", "split"):
+        # split deliveries: on exactly representable demands the set of complete mask-admitted histories must contain every
+        # history of the documented delivery rule (independent exact-arithmetic enumeration), and reach its optimum
+        ref, ok = explore.sdvrp_histories(inst)
+        if ok and ref:
+            lib = set(tuple(int(a) for a in acts) for acts, _ in leaves)
+            ctx.evaluation()
+            ctx.count("c05_sdvrp_split_instances")
+            ctx.count("c05_sdvrp_split_histories", len(ref))
+            if any(len(set(h) - {0}) < len([a for a in h if a != 0]) for h in ref):
+                ctx.count("c05_sdvrp_instances_with_revisits")
+            miss = sorted(ref - lib)
+            if miss:
+                ctx.violation(sig_of(cfg, q="feasible_unreachable", family=family, split=True), f"split-delivery history {list(miss[0])} (deliver as much as possible at every visit) is not reachable through the mask ({len(miss)} of {len(ref)} histories missing)",
+                              dict(inst=inst, candidate=list(miss[0]), n_missing=len(miss)))
+            else:
+                best_ref = max(O.objective(inst, list(h)) for h in ref)
+                best_lib = max(r for _, r in leaves)
+                if best_lib < best_ref - tolr(best_ref):
+                    ctx.violation(sig_of(cfg, q="optimum_unreachable", family=family, split=True), f"best reward reachable through the mask {best_lib} < optimum over split-delivery histories {best_ref}", dict(inst=inst))
     reach = {}
     for acts, r in leaves:
         c = explore.canon(name, acts, inst)
